@@ -241,6 +241,9 @@ def thorough_verus(root, repo, name, cfg, text, work, r):
     r["guards"]["mutants_skipped"] = skipped
     if survived:
         r["notes"].append("self-test: contract mutants not rejected: %s" % survived)
+    if os.path.exists(mpath) and not killed and not skipped:
+        r["status"] = "undecided"
+        r["reason"] = "vacuity guard: none of the unit's contract mutants is rejected (the contracts constrain nothing?)"
     # stability: half the default rlimit
     p = os.path.join(work, name + ".rs")
     v = verus_run.run(p, rlimit=max(1, int(cfg.get("rlimit", 10)) // 2))
